@@ -70,10 +70,14 @@ theorem pathmatch_sound (fx real : Bool) (P Y : Str) (hP : NUL ∉ P) (hY : NUL 
     simp
 
 /-- **C31 `pathmatch_eq_spec`, whole function**: for every pattern, path, base path, file mode and syntax inside the
-    documented domain, the repaired `PathMatch::match` decides exactly the documented rule -/
+    documented domain, the repaired `PathMatch::match` decides exactly the documented rule.  The rule does not mention the
+    `pattern == path` shortcut of the code: the shortcut is proved to be covered by the rule (`fast_path_spec`) whenever
+    `FastPathOk` (pattern absolute / base-relative, or base path empty, or base path absolute and – always so on unix – the
+    pattern without a root of its own); `pathMatch_shortcut_counterexample_*` show the two remaining input classes. -/
 theorem pathMatch_eq_spec (syn : Syntax) (mode : Filemode) (pattern path base : Str)
     (hp : CanonDomain (rawPattern syn pattern base).1 (rawPattern syn pattern base).2 = true)
-    (hx : CanonDomain (rawPath syn path base).1 (rawPath syn path base).2 = true) :
+    (hx : CanonDomain (rawPath syn path base).1 (rawPath syn path base).2 = true)
+    (hfp : pattern = path → FastPathOk syn pattern base = true) :
     pathMatch .fixed syn mode pattern path base = true ↔ PathMatchSpec syn mode pattern path base := by
   unfold pathMatch PathMatchSpec
   by_cases he : pattern = []
@@ -82,7 +86,6 @@ theorem pathMatch_eq_spec (syn : Syntax) (mode : Filemode) (pattern path base : 
     simp only [he', Bool.false_eq_true, if_false, ne_eq, he, not_false_eq_true, true_and]
     by_cases hs : (pattern == ['*'] || pattern == ['*', '*']) = true
     · simp only [hs, if_true, true_iff]
-      right
       simp only [Bool.or_eq_true, beq_iff_eq] at hs
       have hreal : isReal pattern = false := by rcases hs with h | h <;> subst h <;> decide
       have hdm : dirMismatch syn mode pattern = false := by
@@ -97,12 +100,15 @@ theorem pathMatch_eq_spec (syn : Syntax) (mode : Filemode) (pattern path base : 
       have hdmdef : (issep syn (pattern.getLastD NUL) && mode != .directory) = dirMismatch syn mode pattern := rfl
       rw [hdmdef]
       by_cases hf : (!dirMismatch syn mode pattern && pattern == path) = true
-      · simp only [hf, if_true, true_iff]
-        left
-        simpa using hf
+      · -- the shortcut: covered by the rule (`fast_path_spec`)
+        simp only [hf, if_true, true_iff]
+        simp only [Bool.and_eq_true, Bool.not_eq_true', beq_iff_eq] at hf
+        obtain ⟨hdm, hpp⟩ := hf
+        subst hpp
+        rw [hdm]
+        simp only [Bool.false_eq_true, if_false]
+        exact fast_path_spec syn pattern base hp hx (hfp rfl)
       · simp only [hf, Bool.false_eq_true, if_false]
-        have hfast : ¬ (dirMismatch syn mode pattern = false ∧ pattern = path) := by
-          intro h; apply hf; rw [h.1]; simp [h.2]
         have hS := fromPattern_stream syn pattern base hp
         have hT := fromPath_stream syn path base hx
         have hPn : NUL ∉ canonPattern syn pattern base := by
@@ -131,11 +137,6 @@ theorem pathMatch_eq_spec (syn : Syntax) (mode : Filemode) (pattern path base : 
         rw [hfx, matchStreams_eq true _ _ _ (by simpa using hYn)]
         simp only [Option.getD_some]
         rw [search_iff_spec true (isReal pattern) _ Y hPn hYn (Or.inl rfl)]
-        constructor
-        · intro h; exact Or.inr h
-        · rintro (h | h)
-          · exact absurd h hfast
-          · exact h
 
 
 /-- the executable form of the rules used by the check (`spec` op of the driver) decides the documented rule -/
@@ -144,6 +145,23 @@ theorem pathMatchSpecB_iff (syn : Syntax) (mode : Filemode) (pattern path base :
   unfold pathMatchSpecB PathMatchSpec
   simp only [Bool.and_eq_true, Bool.not_eq_true', List.isEmpty_eq_false_iff, Bool.or_eq_true, beq_iff_eq,
     specMatchB_iff, ne_eq]
+
+/-- where the shortcut is NOT covered by the rule (1): a free pattern whose canonical form is empty, with a relative
+    base path – `match("a/..", "a/..", "b")` is true by the shortcut, the rule (`"b"` matched by the empty pattern) is false -/
+theorem pathMatch_shortcut_counterexample_relative_base :
+    pathMatch .fixed .unix .regular "a/..".toList "a/..".toList "b".toList = true ∧
+    pathMatchSpecB .unix .regular "a/..".toList "a/..".toList "b".toList = false ∧
+    FastPathOk .unix "a/..".toList "b".toList = false ∧
+    CanonDomain (rawPattern .unix "a/..".toList "b".toList).1 (rawPattern .unix "a/..".toList "b".toList).2 = true ∧
+    CanonDomain (rawPath .unix "a/..".toList "b".toList).1 (rawPath .unix "a/..".toList "b".toList).2 = true := by decide
+
+/-- where the shortcut is NOT covered by the rule (2): windows syntax (on this build only used by tests), a pattern with
+    a drive root of its own that is not absolute for `Path::isAbsolute` -/
+theorem pathMatch_shortcut_counterexample_windows_root :
+    pathMatch .fixed .windows .regular "c:/..".toList "c:/..".toList "/b".toList = true ∧
+    pathMatchSpecB .windows .regular "c:/..".toList "c:/..".toList "/b".toList = false ∧
+    FastPathOk .windows "c:/..".toList "/b".toList = false := by
+  refine ⟨by decide, by decide, by decide⟩
 
 /-- before the repair (C31-3): a star followed (reading backwards) by `?` found no backtrack position -/
 theorem pathmatch_star_counterexample_before_repair :
@@ -159,6 +177,8 @@ theorem pathmatch_dirpattern_counterexample_before_repair :
 
 /-! the hypotheses are met by ordinary inputs, and the documented rule distinguishes them -/
 example : MatchOk .fixed .unix .regular "s/*.c".toList "s/a.c".toList "/b".toList = true := by decide
+example : MatchOk .fixed .unix .regular "s/a.c".toList "s/a.c".toList "/b".toList = true ∧
+    FastPathOk .unix "s/a.c".toList "/b".toList = true ∧ FastPathOk .unix "s/a.c".toList [] = true := by decide
 example : pathMatch .fixed .unix .regular "s/*.c".toList "s/a.c".toList "/b".toList = true ∧
     pathMatch .fixed .unix .regular "s/*.c".toList "s/t/a.c".toList "/b".toList = false := by decide
 example : pathMatch .fixed .unix .regular "**/a".toList "x//./a".toList [] = true := by decide
@@ -298,7 +318,7 @@ theorem cli_ignore_eq_rule (mode : Filemode) (u path cwd : Str) (hcwd : isAbsolu
     (hu : UserPatternOk u = true) :
     pathMatch .fixed .unix mode (normalizeIgnored u) path cwd = true ↔ UserIgnoreSpec mode u path cwd := by
   rw [← pathMatchSpec_normalized]
-  apply Cppcheck.PathMatch.pathMatch_eq_spec
+  refine Cppcheck.PathMatch.pathMatch_eq_spec .unix mode _ path cwd ?_ ?_ (fun _ => fastPathOk_unix _ cwd (Or.inl hcwd))
   · unfold rawPattern
     have hr : isRelativePattern (normalizeIgnored u) = relativeU (removeQuotationMarks u) := isRelativePattern_fromNative _
     have ha : isAbsolute (normalizeIgnored u) = absoluteU (removeQuotationMarks u) := isAbsolute_fromNative _
@@ -345,8 +365,9 @@ theorem cli_selection_exact (us : List Str) (acc : Str → Bool × Lang) (cwd pa
 
 /-- the values reach the matcher exactly as `normalizeIgnored` leaves them, in the order given; empty values are dropped,
     a missing value is an error -/
-example : parseIgnoreArgs ["-i".toList, ".\\g\\".toList, "-i\"a b\"/".toList, "-i".toList, [], "s".toList] =
-    some (["./g/".toList, "a b/".toList], ["s".toList]) := by decide
+example : parseIgnoreArgs ["-i".toList, ".\\g\\".toList, "-i\"a b\"/".toList, "-i".toList, [], "--file-filter=*.c".toList,
+      "s\\t".toList] =
+    some (["./g/".toList, "a b/".toList], ["*.c".toList], ["s/t".toList]) := by decide
 example : parseIgnoreArgs ["-i".toList, "-x".toList, "s".toList] = none ∧ parseIgnoreArgs ["s".toList, "-i".toList] = none := by
   decide
 
